@@ -121,7 +121,10 @@ def body_sort_fn(n, x0, x1, x2, x3, rev):
     return True
 
 
-def body_groupby(n, backing, prefix, g0, g1, g2, g3, g4):
+GROUP_IDS = [None, 'x', 7, (1, 2), '']        # arbitrary hashable, pairwise different group ids (None and falsy ones included)
+
+
+def body_groupby(n, backing, prefix, g0, g1, g2, g3, g4, idset='int'):   # idset is passed by body_groupby_hashable only
     # groupby touches the ids only through ==/hash, so n distinct values reach every equality
     # pattern (set partition) of n ids; hashing a symbolic int realises it, hence the range
     for g in rt.mk(n, [g0, g1, g2, g3, g4]):
@@ -129,6 +132,26 @@ def body_groupby(n, backing, prefix, g0, g1, g2, g3, g4):
         rt.assume(g < n)
     ds, ids = _source(n, backing, [g0, g1, g2, g3, g4], prefix)
     flat = list(ds)
+    if idset == 'hashable':
+        def gid_of(ex):
+            # the integer selector picks one of the hashable ids (elementary selection, no symbolic list index)
+            out = GROUP_IDS[0]
+            for j in range(1, len(GROUP_IDS)):
+                if ex['v'] == j:
+                    out = GROUP_IDS[j]
+            return out
+        groups = ds.groupby(gid_of)
+        rt.reached()
+        total = 0
+        for gid, sub in groups.items():
+            members = list(sub)
+            total += len(members)
+            want = [e for e in flat if gid_of(e) == gid and type(gid_of(e)) is type(gid)]
+            if len(members) == 0 or [e['i'] for e in members] != [e['i'] for e in want]:
+                return False
+        if total != len(flat):
+            return False
+        return all(any(k == gid_of(e) and type(k) is type(gid_of(e)) for k in groups) for e in flat)
     groups = ds.groupby(lambda ex: ex['v'])
     rt.reached()
     total = 0
@@ -151,6 +174,10 @@ def body_groupby(n, backing, prefix, g0, g1, g2, g3, g4):
         if not found:
             return False
     return True
+
+
+def body_groupby_hashable(n, backing, prefix, g0, g1, g2, g3, g4):
+    return body_groupby(n, backing, prefix, g0, g1, g2, g3, g4, idset='hashable')
 
 
 def _conds_sort(tier, seed):
@@ -179,6 +206,9 @@ FAMILIES = [
            desc='sort() without key_fn orders by example key, reverse honoured'),
     Family('sort_fn', body_sort_fn, ['n'], XS[:4] + [('rev', 'bool')], lambda tier, seed: [(n,) for n in range(0, 5)], timeout=120,
            desc='custom sort_fn'),
+    Family('groupby_hashable', body_groupby_hashable, ['n', 'backing', 'prefix'], [('g0', 'int'), ('g1', 'int'), ('g2', 'int'), ('g3', 'int'), ('g4', 'int')],
+           lambda tier, seed: [c for c in _conds_sort(tier, seed) if c[0] <= (3 if tier == 'quick' else 4) and c[2] in ('none', 'rev')],
+           timeout=dict(quick=60, thorough=900), desc='groupby with arbitrary hashable group ids (None, str, int, tuple, empty string)'),
     Family('groupby', body_groupby, ['n', 'backing', 'prefix'], [('g0', 'int'), ('g1', 'int'), ('g2', 'int'), ('g3', 'int'), ('g4', 'int')],
            lambda tier, seed: [c for c in _conds_sort(tier, seed) if c[0] <= (3 if tier == 'quick' else 4)],
            timeout=dict(quick=60, thorough=900), desc='groupby partitions and keeps relative order'),
